@@ -6,6 +6,7 @@
 EXTENDS Metadata
 
 CONSTANTS MaxIdx, FileSize, MaxBatch, MaxReaders, MaxRF, Depth,
+          ReaderAtStart,  \* TRUE: one metadata reader exists from the start (C12 scope: the age of readers is C20's subject)
           DupMode,   \* "any": a refused call may have stored any prefix of its samples before the duplicate (E1);
                      \* "all": it stored all of them - the choice the implementation makes, used for behaviour export (E2)
           QMode      \* "all": every query is also taken as a transition; "edge": transitions only for a subset (the invariant
@@ -21,7 +22,7 @@ Init ==
   /\ cfg = Cfg0
   /\ store = [k \in {} |-> <<>>]
   /\ mfiles = [j \in 1..NW0 |-> {}]
-  /\ readers = [r \in {} |-> 0]
+  /\ readers = [r \in (IF ReaderAtStart THEN {1} ELSE {}) |-> [kind |-> "md", fk |-> FALSE, old |-> FALSE]]
   /\ rf = 0 /\ disk = 0 /\ resp = "ok"
   /\ last = Act("Init", 0, NoW, NoQ, {})
 
@@ -60,7 +61,8 @@ Queries == {[a |-> ab[1], b |-> ab[2], cols |-> c, method |-> m] : ab \in Ranges
 
 NWriteBatch == \E S \in Batches : \E var \in VarsFor(Cardinality(S)) :
                  WriteBatch(Req(var, Sorted(S), 0), disk + 1)
-NWriteDup   == \E idxs \in DupSeqs : \E var \in VarsFor(Len(idxs)) \ {"dictW"} :
+DupVars(n) == IF QMode = "all" THEN VarsFor(n) \ {"dictW"} ELSE IF n = 1 THEN {"single", "list"} ELSE {"dictD"}
+NWriteDup   == \E idxs \in DupSeqs : \E var \in DupVars(Len(idxs)) :
                  LET w == Req(var, idxs, 50) IN
                  \E m \in (IF DupMode = "all" THEN {DupPos(w) - 1} ELSE 0..(DupPos(w) - 1)) :
                     WriteDup(w, {idxs[j] : j \in 1..m}, disk + 1)
@@ -69,7 +71,7 @@ NNewReader  == /\ Cardinality(DOMAIN readers) < MaxReaders
                /\ \E kind \in (IF MaxRF > 0 THEN {"md", "rf"} ELSE {"md"}) :
                     NewReader(Cardinality(DOMAIN readers) + 1, kind)
 TQueries == IF QMode = "all" THEN Queries
-            ELSE {q \in Queries : IF q.cols = <<>> THEN q.a = q.b \/ q.b = MaxIdx ELSE q.a + 2 = q.b}
+            ELSE {q \in Queries : IF q.cols = <<>> THEN q.a = q.b \/ q.b = MaxIdx ELSE q.a = 0 /\ q.b = MaxIdx}
 NRead       == \E r \in DOMAIN readers : \E q \in TQueries : Read(r, q)
 NBounds     == \E r \in DOMAIN readers : Bounds(r)
 NLatest     == \E r \in DOMAIN readers : Latest(r)
